@@ -307,7 +307,9 @@ func (r *Run) pipeline(n int, gen func(i int) (*VC, error)) []*OblResult {
 // invariants) must be satisfiable - a contradictory set would discharge
 // anything.
 func (r *Run) vacuity(vc *VC, file string) {
-	if !r.Cross || len(vc.Query.Hyps) == 0 {
+	if !r.Cross || len(vc.Query.Hyps) == 0 || vc.aliasInst {
+		// (an aliasing instance may be excluded by the requires - `p != &cpu.AF.Lo` -;
+		// the unaliased instance of the same contract is covered)
 		return
 	}
 	q := &Query{Hyps: nil, Goals: nil}
